@@ -46,6 +46,19 @@ class Violation(AssertionError):
     pass
 
 
+class EnvironmentExhausted(BaseException):
+    """The machine ran out of threads / memory / descriptors / disk while a case ran: says nothing about the property."""
+
+
+_ENV_MARKERS = ("can't start new thread", 'Cannot allocate memory', 'MemoryError', 'No space left on device',
+                'Too many open files', 'Resource temporarily unavailable')
+
+
+def _environmental(failure):
+    text = json.dumps(failure, default=_json_default)
+    return any(m in text for m in _ENV_MARKERS)
+
+
 def canon(case):
     return json.dumps(case, sort_keys=True, separators=(',', ':'), default=_json_default)
 
@@ -141,6 +154,17 @@ def _write_partial_replay(prop, best):
 def evaluate(prop, case, stats, known, *, raise_on_violation=True):
     """Run one case; apply the known-finding protocol. Returns the Outcome."""
     out = prop.run_case(case)
+    tries = 0
+    while out.failure is not None and _environmental(out.failure):
+        # resource exhaustion of the host (other jobs share it) is not evidence about the property: wait, run the case again,
+        # and give up as a harness error when it persists
+        tries += 1
+        if tries > 3:
+            raise EnvironmentExhausted(json.dumps(out.failure, default=_json_default)[:500])
+        stats.notes.append('case re-run after host resource exhaustion: ' + str(out.failure.get('msg'))[:120])
+        env.shutdown_executors()
+        time.sleep(5 * tries)
+        out = prop.run_case(case)
     stats.record(case, out)
     if out.failure is not None:
         fid = findings.match(prop, known, case, out.failure)
